@@ -65,13 +65,18 @@ def scrape(src, modpath, enums, structs):
         end = match_brace(src, m.end() - 1)
         body = src[m.end():end]
         fields = []
+        ftypes = []
         for it in split_items(body):
             it = re.sub(r'#\[[^\]]*\]', '', it).strip()
-            mm = re.match(r'(?:pub(?:\([a-z]+\))? )?(\w+)\s*:', it)
+            mm = re.match(r'(?:pub(?:\([a-z]+\))? )?(\w+)\s*:\s*(.*)$', it, re.S)
             if mm:
                 fields.append(mm.group(1))
+                ftypes.append(re.sub(r'\s+', ' ', mm.group(2).strip()))
         structs.setdefault(m.group(1), []).append(('::'.join(modpath), fields))
+        FIELD_TYPES.setdefault(m.group(1), []).append(('::'.join(modpath), list(zip(fields, ftypes))))
 
+
+FIELD_TYPES = {}
 
 BUILTIN_ENUMS = {
     'Option': ['None', 'Some'], 'Result': ['Ok', 'Err'], 'ControlFlow': ['Continue', 'Break'],
@@ -111,6 +116,17 @@ class TypeTables:
         if len(best) >= 1:
             return best[0]
         return cands[0][1]
+
+    def field_types(self, ty):
+        parts = ty.split('::')
+        cands = FIELD_TYPES.get(parts[-1])
+        if not cands:
+            return None
+        if len(cands) == 1:
+            return cands[0][1]
+        qual = '::'.join(parts[:-1])
+        best = [v for (m, v) in cands if qual and (qual.endswith(m) or m.endswith(qual))]
+        return best[0] if best else cands[0][1]
 
     def fields(self, ty):
         parts = ty.split('::')
